@@ -7,14 +7,17 @@
 (* choices on the real stacks (skipping a choice the real world does not enable).  *)
 EXTENDS E2E, Json
 VARIABLE hist
+FirstDiff(q, r) == IF \E k \in 1..Len(q) : k > Len(r) \/ q[k] # r[k] THEN CHOOSE k \in 1..Len(q) : (k > Len(r) \/ q[k] # r[k]) /\ \A m \in 1..(k - 1) : q[m] = r[m] ELSE 1
 EnvAct ==
-  IF Len(msgs') > Len(msgs) THEN [t |-> "Submit", c |-> msgs'[Len(msgs')].s, d |-> msgs'[Len(msgs')].d, f |-> ""]
+  IF Len(msgs') > Len(msgs) THEN [t |-> "Submit", c |-> msgs'[Len(msgs')].s, d |-> msgs'[Len(msgs')].d, f |-> "", j |-> 1]
   ELSE IF \E c \in Acc : Len(inq'[c]) < Len(inq[c])
-       THEN [t |-> "Process", c |-> CHOOSE c \in Acc : Len(inq'[c]) < Len(inq[c]), d |-> "", f |-> ""]
+       THEN [t |-> "Process", c |-> CHOOSE c \in Acc : Len(inq'[c]) < Len(inq[c]), d |-> "", f |-> "", j |-> 1]
   ELSE IF faults' # faults
-       THEN [t |-> "Deliver", c |-> (CHOOSE x \in hit' \ hit : TRUE)[1], d |-> "",
-             f |-> IF \E c \in Acc : Len(outq'[c]) < Len(outq[c]) THEN "corrupt" ELSE "dup"]
-  ELSE [t |-> "Deliver", c |-> CHOOSE c \in Acc : Len(outq'[c]) < Len(outq[c]), d |-> "", f |-> ""]
+       THEN LET c == (CHOOSE x \in hit' \ hit : TRUE)[1] IN
+            [t |-> "Deliver", c |-> c, d |-> "", j |-> FirstDiff(outq[c], outq'[c]),
+             f |-> IF \E a \in Acc : Len(outq'[a]) < Len(outq[a]) THEN "corrupt" ELSE "dup"]
+  ELSE LET c == CHOOSE a \in Acc : Len(outq'[a]) < Len(outq[a]) IN
+       [t |-> "Deliver", c |-> c, d |-> "", f |-> "", j |-> FirstDiff(outq[c], outq'[c])]
 SInit == Init /\ hist = <<>>
 SNext == MNext /\ hist' = Append(hist, EnvAct)
 SSpec == SInit /\ [][SNext]_<<vars, hist>>
